@@ -2813,6 +2813,23 @@ class StateEngine(object):
 
             return start
 
+        def get_reentry_index(context):
+            """
+            The start index when the current event re-enters a Map state to
+            launch its next block of MaxConcurrency iterations, otherwise zero.
+            The event that re-enters a Map state has an entry on top of the
+            "Branch" list that holds just the "ID" and "Range" of that Map state.
+            An entry that has an "Index" is the entry of the Parallel or Map
+            state that *contains* the current state (whose own "Range" is not
+            the current Map state's), so a Map state nested in a branch of a
+            Map state using MaxConcurrency is entered afresh.
+            """
+            context_state = context["State"]
+            if "Branch" in context_state and len(context_state["Branch"]):
+                if "Index" in context_state["Branch"][-1]:
+                    return 0
+            return get_start_index(context)
+
         def asl_state_Map_delegate():
             """
             https://states-language.net/spec.html#map-state
@@ -2931,7 +2948,7 @@ class StateEngine(object):
                 failure (e.g. in the ItemSelector) leaves nothing half done for
                 this Map state's Retry and Catch to deal with.
                 """
-                batch_start = get_start_index(context)
+                batch_start = get_reentry_index(context)
                 batch_end = min(batch_start + max_concurrency, length)
                 batch_parameters = []
                 for index, item in enumerate(
@@ -2963,7 +2980,7 @@ class StateEngine(object):
                 if length and not "Branch" in context_state:
                     context_state["Branch"] = []
 
-                start = get_start_index(context)
+                start = get_reentry_index(context)
                 if length:
                     if start == 0:
                         if len(context_state["Branch"]) > 0:
@@ -3118,7 +3135,7 @@ class StateEngine(object):
             the "start" index to ensure we only set the RetryTimeout for
             the first "batch".
             """
-            if get_start_index(context) == 0:
+            if get_reentry_index(context) == 0:
                 retry_timeout = context["State"].get("RetryTimeout", 0)
             else:
                 retry_timeout = 0
@@ -3514,7 +3531,7 @@ class StateEngine(object):
         set we will re-enter the Map state, possibly several times, to process
         the next batch of items so again we want to suppress the history update.
         """
-        reentered_map = state_type == "Map" and get_start_index(context) != 0
+        reentered_map = state_type == "Map" and get_reentry_index(context) != 0
         if not context["State"].get("RetryCount") and not reentered_map:
             self.update_execution_history(
                 state_machine,
